@@ -1,6 +1,7 @@
 """C08 -- outgoing session ids count 1..0xFFFF per destination; reboot flag clears on wrap."""
 import someip.sd as SD
 from contracts import spec_sd as SS
+from contracts.common import gen_addr
 
 FUNCTIONS = ["someip.sd._SessionStorage.assign_outgoing"]
 
@@ -33,8 +34,8 @@ def ob_lemma_sequence_step(vc):
 def ob_lemma_independent_destinations(vc):
     """traffic to another destination does not disturb a destination's sequence"""
     a, b = SS.gen_storage(vc, "st")
-    r1 = vc.opaque("r1", "addr")
-    r2 = vc.opaque("r2", "addr")
+    r1 = gen_addr(vc, "r1")
+    r2 = gen_addr(vc, "r2")
     vc.assume(r1 != r2)
     before = a.outgoing.get(r1, SS.default_session())
     a.assign_outgoing(r2)
